@@ -129,6 +129,58 @@ def holds(name, cond, family='', extra=(), meta=None):
 
 
 _JOB = None
+_SLICE_CACHE = {}
+
+
+def needed_aux(terms, ctx):
+    """auxiliary variables (fresh names containing '!') reachable from `terms` through their
+    definitions"""
+    need = set()
+    stack = []
+    for t in terms:
+        stack += [n for n in S._vars_of(t) if '!' in n]
+    while stack:
+        n = stack.pop()
+        if n in need:
+            continue
+        need.add(n)
+        d = ctx.defs.get(n)
+        if d is not None:
+            for x in d[1:]:
+                if isinstance(x, z3.ExprRef):
+                    stack += [k for k in S._vars_of(x) if '!' in k and k not in need]
+    return need
+
+
+def sliced_cons(terms, ctx):
+    """definitional slicing: only the defining constraints of the auxiliary variables the
+    obligation depends on (dropping the others weakens the assumptions: sound for `unsat`)"""
+    key = id(ctx)
+    idx = _SLICE_CACHE.get(key)
+    if idx is None or idx[0] != len(ctx.cons):
+        idx = (len(ctx.cons), [(c, {n for n in S._vars_of(c) if '!' in n}) for c in ctx.cons])
+        _SLICE_CACHE[key] = idx
+    need = needed_aux(terms, ctx)
+    changed = True
+    out = []
+    picked = set()
+    while changed:
+        changed = False
+        for k, (c, aux) in enumerate(idx[1]):
+            if k in picked:
+                continue
+            if aux and aux & need and not (aux <= need):
+                # a definition that ties a needed variable to further auxiliaries: pull them in
+                if all(n in ctx.defs or True for n in aux):
+                    need |= needed_aux([c], ctx)
+                    changed = True
+            if aux <= need and (aux or True):
+                if aux:
+                    picked.add(k)
+    for k, (c, aux) in enumerate(idx[1]):
+        if k in picked or not aux:
+            out.append(c)
+    return out
 
 
 def _solve(i):
@@ -141,13 +193,27 @@ def _solve(i):
     s = z3.Solver()
     s.set('timeout', timeout_ms)
     s.set('max_memory', 4000)
-    s.add(ctx.cons)
+    s.add(sliced_cons([e] + list(ob.extra), ctx) if os.environ.get('PVF_NO_SLICE') != '1' else ctx.cons)
     s.add(ctx.dom)
     s.add(ob.extra)
     s.add(e)
     t0 = time.time()
     try:
+        first = min(timeout_ms, 5000)
+        s.set('timeout', first)
         r = s.check()
+        if r == z3.unknown and ob.expr is not None:
+            # rational identity beyond nlsat: multiply out the reciprocals / reduce square roots
+            # exactly; the negated claim then reads `0 != 0`
+            from . import poly
+            try:
+                if poly.eliminate(ob.expr, ctx).is_zero():
+                    return i, 'unsat', time.time() - t0, 'reciprocal elimination', False
+            except (NotImplementedError, poly.TooBig, RecursionError):
+                pass
+        if r == z3.unknown and timeout_ms > first:
+            s.set('timeout', timeout_ms - first)
+            r = s.check()
     except z3.Z3Exception as ex:
         return i, 'unknown', time.time() - t0, str(ex), False
     dt = time.time() - t0
@@ -262,6 +328,8 @@ class AReport:
             run.queries += 0 if r['trivial'] else 1
             if r['result'] == 'unsat':
                 f[1] += 1
+                if r.get('model') == 'reciprocal elimination':
+                    run.cov['decided_by_reciprocal_elimination'] = run.cov.get('decided_by_reciprocal_elimination', 0) + 1
                 if len(run.samples) < 10 and not r['trivial']:
                     run.sample({'obligation': ob.name, 'family': ob.family, 'result': 'unsat', 'solver_s': round(r['secs'], 3)})
             elif r['result'] == 'sat':
